@@ -39,6 +39,7 @@ def _(c):
     c.requires("wf_union(val) and implies(isa(val, AnnotatedValue), wf_union(val.value))", name="well_formed_union")
     c.ensures("implies(not unwrap_annotated, forall(lambda o: mem(o, val) == exists(lambda i: 0 <= i and i < len(result) and mem(o, result[i])), 'obj'))", name="same_members")
     c.ensures("implies(not unwrap_annotated, all(not union_like(r) for r in result))", name="no_union_among_the_results")
+    c.ensures("implies(not unwrap_annotated, all(flat_member(r, val) for r in result))", name="results_come_from_the_argument")
     c.ensures("implies(not isa(val, MultiValuedValue) and not (isa(val, AnnotatedValue) and isa(val.value, MultiValuedValue)) and not unwrap_annotated, len(result) == 1 and same(result[0], val))", name="identity_on_non_unions")
 
 
@@ -49,9 +50,12 @@ def _(c):
     c.returns("obj:MultiValuedValue")
     c.functional = True
     c.ensures("typeis(result, MultiValuedValue)")
-    c.ensures("implies(all(not union_like(v) for v in raw_vals),"
-              " seq_eq(result.vals, raw_vals))", name="vals_are_the_arguments_when_nothing_to_flatten")
-    c.assume("MultiValuedValue(raw_vals): vals = the flattened arguments (__post_init__)")
+    c.requires("all(wf_union(v) and implies(isa(v, AnnotatedValue), wf_union(v.value)) for v in raw_vals)", name="arguments_well_formed")
+    c.ensures("forall(lambda o: exists(lambda i: 0 <= i and i < len(result.vals) and mem(o, result.vals[i])) =="
+              " exists(lambda j: 0 <= j and j < len(raw_vals) and mem(o, raw_vals[j])), 'obj')", name="members_are_the_members_of_the_arguments")
+    c.ensures("all(not union_like(m) for m in result.vals)", name="never_nested")
+    c.ensures("all(exists(lambda j: 0 <= j and j < len(raw_vals) and flat_member(m, raw_vals[j])) for m in result.vals)", name="members_come_from_the_arguments")
+    c.assume("MultiValuedValue(raw_vals) = dataclass __init__ followed by __post_init__(raw_vals); the two clauses are exactly the postconditions proved for the kernel MultiValuedValue.__post_init__")
 
 
 IN_EXISTING = ("(exists(lambda e: 0 <= e and e < len(keys_of(hashable_vals)) and mem(o, keys_of(hashable_vals)[e]))"
@@ -85,3 +89,14 @@ def _(c):
     c.ensures("forall(lambda o: mem(o, result) == exists(lambda j: 0 <= j and j < len(values) and mem(o, values[j])), 'obj')", name="members_are_exactly_the_members_of_the_operands")
     c.ensures("wf_union(result)", name="never_nested")
     c.ensures("implies(all(static(v) for v in values), static(result))", name="static_operands_give_a_static_union")
+
+
+@contract("pyanalyze.value.MultiValuedValue.__post_init__", props=P)
+def _(c):
+    c.param("raw_vals", "seq")
+    c.callee("self._get_known_subvals", lambda k: (k.param("self", "val"), k.returns("val")))
+    c.requires("all(wf_union(v) and implies(isa(v, AnnotatedValue), wf_union(v.value)) for v in raw_vals)", name="arguments_well_formed")
+    c.ensures("forall(lambda o: exists(lambda i: 0 <= i and i < len(self.vals) and mem(o, self.vals[i])) =="
+              " exists(lambda j: 0 <= j and j < len(raw_vals) and mem(o, raw_vals[j])), 'obj')", name="members_are_the_members_of_the_arguments")
+    c.ensures("all(not union_like(m) for m in self.vals)", name="never_nested")
+    c.ensures("all(exists(lambda j: 0 <= j and j < len(raw_vals) and flat_member(m, raw_vals[j])) for m in self.vals)", name="members_come_from_the_arguments")
